@@ -1,14 +1,23 @@
 CHECK = {
     "level": "model_checking",
-    "technique": "stateless bounded-exhaustive enumeration of the real checksum functions against a bit-serial CRC-16/ARC reference (reflected polynomial 0xA001, no final xor)",
-    "rule": "odometer over (state, octet) pairs, (state, two-octet buffer) pairs, structured buffers x initial value x every cut position, exact-size blocks of every length, 16-bit-word buffers of every length x every cut position; the quantifier's 'random buffers up to 4 KiB' are replaced by the structured family ramp / constants 00 ff a5 / walking one / each single octet followed by zeros, all 4 KiB in the thorough tier; a case is one row of the odometer (e.g. 2^16 pairs, or one buffer with all its cut positions); non-trivial = at least one octet is fed to the checksum",
+    "technique": "stateless bounded-exhaustive enumeration of the real checksum functions against a bit-serial CRC-16/ARC reference (reflected polynomial 0xA001, no final xor); runs of zero octets in multi-GiB buffers are advanced in the reference by the 16x16 GF(2) matrix of the zero-octet step raised to the run length (anchored against the bit-serial loop); call histories are enumerated from freshly forked processes",
+    "rule": "odometer over (state, octet) pairs, (state, two-octet buffer) pairs, structured buffers x initial value x every cut position, exact-size blocks of every length, 16-bit-word buffers of every length x every cut position; structured boundary family of lengths 2^k+{-1,0,1,5} for k=16..20 (octets and words; 4 cuts each), one long buffer continued in chunks of 21 sizes straddling 2^2..2^18, single calls over lengths straddling 2^31/2^32 (thorough: 2^31..2^34 octets, 2^30..2^32 words; quick: 2^32+5 and 2^31+5 octets, 2^31+5 words) in a zero-page mapping that ends at an inaccessible page; all 84 histories of 1..3 calls over the 4 entry points, each from a fresh process, x 3 contents x 5 lengths x 3 initial values; the quantifier's 'random buffers up to 4 KiB' are replaced by the structured family ramp / constants 00 ff a5 / walking one / each single octet followed by zeros, all 4 KiB in the thorough tier; a case is one row of the odometer (e.g. 2^16 pairs, one buffer with all its cut positions, one call history); non-trivial = at least one octet is fed to the checksum",
     "assumptions": ["little-endian host with 8-bit bytes (the word variant's other branch is not compiled)",
-                    "the buffer functions are a fold of the update step: the complete check of the step (2^24 pairs) plus the fold identities argues for every input; the long buffers guard the loop itself",
-                    "ASan red zones behind exact-size heap blocks observe reads past the given length"],
+                    "the buffer functions are a fold of the update step: the complete check of the step (2^24 pairs) plus the fold identities argues for every input; the long buffers guard the loop itself, the boundary family guards its length arithmetic (64-bit size_t host: lengths up to 2^34+5 octets)",
+                    "multi-GiB buffers are zero between a patterned head and tail (the kernel's zero page behind a MAP_NORESERVE mapping); if the address space cannot be mapped the run is reported as capped, not as passed",
+                    "ASan red zones behind exact-size heap blocks (and a PROT_NONE page behind the multi-GiB mappings) observe reads past the given length",
+                    "first-use behaviour is observed per forked child; the enumerating process makes no checksum call itself"],
     "harnesses": [{
         "name": "c16_crc", "src": "harness/c16_crc.c", "shape": "espace", "opt": "-O2",
-        "lib": ["src/crc-16-arc.c"], "min_outcomes": 6,
+        "lib": ["src/crc-16-arc.c"], "min_outcomes": 10,
         "require_outcomes": {"any": ["step-agrees", "pair-agrees", "split-agrees", "length-agrees",
-                                     "words-agree", "empty-returns-state"]},
+                                     "words-agree", "empty-returns-state", "long-agrees", "long-words-agree",
+                                     "chunked-agrees", "huge-agrees"]},
+    }, {
+        "name": "c16_first", "src": "harness/c16_first.c", "shape": "espace", "opt": "-O1",
+        "lib": ["src/crc-16-arc.c"], "min_outcomes": 5,
+        "require_outcomes": {"any": ["first-call-octets-continue", "first-call-octets-from-zero",
+                                     "first-call-words-continue", "first-call-words-from-zero",
+                                     "first-call-empty"]},
     }],
 }
